@@ -39,6 +39,7 @@ ASSUMPTIONS = [
     "labels either label is accepted",
     "edges section (C07's business) is only checked for valid labels, real block edges and defined geometries",
     "counts: chops are count-only (or count + c2c on single blocks); families are recomputed from the file's labels",
+    "a geometry name declared twice may be written with either declaration",
     "modify_patch on a name that owns no face of a surviving operation is not executed (outcome not specified)",
     "Hemisphere: only shape-level patches, zones and corner projections are scripted (its lofts share Face objects)",
     "a script built from valid arguments must run and write; an exception is reported as script-failed / write-failed",
@@ -67,6 +68,7 @@ class Checker:
         self.case = case
         self.ctx = ctx
         self.f = summary(case)
+        self.sphere_face_label: Dict[int, set] = {}  # hemisphere entity -> labels its outer sides are projected to
 
     def fail(self, kind: str, msg: str, **facts: Any):
         raise Violation(kind, msg, **{**self.f, **facts})
@@ -265,7 +267,6 @@ class Checker:
         n = len(bmd.vertices)
         # built-in projections of the sphere: outer sides of its operations, to the shape's own geometry
         table = {x: dict(v) for x, v in m.side_proj.items()}
-        sphere_quads: Dict[frozenset, int] = {}
         for e, ent in enumerate(case["entities"]):
             if ent["kind"] != "hemisphere":
                 continue
@@ -290,9 +291,7 @@ class Checker:
             wanted = set(declared[key])
             spheres = [w for w in wanted if w.startswith("<sphere")]
             if spheres:
-                sphere_quads[key] = int(spheres[0].split()[1].rstrip(">"))
-                self.sphere_face_label = getattr(self, "sphere_face_label", {})
-                self.sphere_face_label.setdefault(sphere_quads[key], set()).add(label)
+                self.sphere_face_label.setdefault(int(spheres[0].split()[1].rstrip(">")), set()).add(label)
             elif label not in wanted:
                 self.fail("face-label", f"faces: quad {quad} projected to {label!r}, declared {sorted(wanted)}")
             used_labels[label] = f"face {quad}"
@@ -304,8 +303,12 @@ class Checker:
         for name, props in m.geometry.items():
             if name not in bmd.geometry:
                 self.fail("geometry-missing", f"geometry {name!r} was added but is not written", name=name)
-            if [norm_tokens(p) for p in bmd.geometry[name]] != [norm_ws(p) for p in props]:
-                self.fail("geometry-props", f"geometry {name!r}: written {bmd.geometry[name]}, declared {props}", name=name)
+            # a name declared twice: which declaration holds is not specified -> any of them is accepted
+            got = [norm_tokens(p) for p in bmd.geometry[name]]
+            if got not in [[norm_ws(p) for p in decl] for decl in m.geometry_all[name]]:
+                self.fail("geometry-props", f"geometry {name!r}: written {bmd.geometry[name]}, declared {m.geometry_all[name]}", name=name)
+            if len(m.geometry_all[name]) > 1:
+                self.ctx.label("geometry-redeclared")
         auto = [nm for nm in bmd.geometry if nm not in m.geometry]
         hemis = [e for e in self.sphere_labels if any(x[0] == e for x in m.order)]
         if len(auto) != len(hemis):
@@ -316,7 +319,7 @@ class Checker:
             match = [nm for nm in auto if _sphere_matches(bmd.geometry[nm], c, ent["radius"])]
             if not match:
                 self.fail("sphere-geometry", f"no searchableSphere with centre {tuple(c)} radius {ent['radius']} among {auto}")
-            for label in getattr(self, "sphere_face_label", {}).get(e, set()):
+            for label in sorted(self.sphere_face_label.get(e, set())):
                 if label not in bmd.geometry:
                     self.fail("geometry-undefined", f"the sphere's sides are projected to {label!r}, which the geometry section "
                               f"does not define (it defines {sorted(bmd.geometry)})", user="builtin-shape", copied=bool(ent.get("copy")))
@@ -415,15 +418,15 @@ def check_program(case, ctx: Ctx) -> None:
 SIMPLE = ["box", "box", "cluster", "cluster", "cluster", "extrude", "revolve", "wedge", "stacked"]
 
 CELLS = [
-    Cell("C06/program/simple", xsc.program(kinds=SIMPLE, max_entities=3, max_statements=10), check_program, 260, 8000,
+    Cell("C06/program/simple", xsc.program(kinds=SIMPLE, max_entities=3, max_statements=10), check_program, 700, 20000,
          "single-block operations, lattice clusters of Lofts and merged stacked boxes"),
     Cell("C06/program/shapes", xsc.program(kinds=["cylinder", "ring", "hemisphere", "stack", "stack"], max_entities=2, max_statements=8),
-         check_program, 90, 2500, "Cylinder / ExtrudedRing / Hemisphere / ExtrudedStack(Grid) incl. shape-level patches and zones"),
-    Cell("C06/program/mixed", xsc.program(max_entities=3, max_statements=10), check_program, 90, 2500,
+         check_program, 200, 6000, "Cylinder / ExtrudedRing / Hemisphere / ExtrudedStack(Grid) incl. shape-level patches and zones"),
+    Cell("C06/program/mixed", xsc.program(max_entities=3, max_statements=10), check_program, 250, 7000,
          "all entity kinds mixed"),
     Cell("C06/program/projections", xsc.program(kinds=["cluster"], max_entities=2, max_statements=10, allow_delete=False,
                                                 only=["project_corner", "project_side", "project_corner", "set_patch"]),
-         check_program, 160, 5000, "clusters of Lofts with many corner/side projections on shared corners and faces"),
+         check_program, 400, 12000, "clusters of Lofts with many corner/side projections on shared corners and faces"),
     Cell("C06/witness/sphere-copy", xsc.program(kinds=["hemisphere"], max_entities=1, max_statements=3, sphere_copy=True),
          check_program, 6, 60, "Hemisphere(...).copy(): the geometry its sides project to must be defined (ledger F15)"),
 ]
